@@ -7,17 +7,33 @@
 
 namespace etl {
 
+namespace detail {
+
+template <typename T>
+[[nodiscard]] constexpr auto fdim(T x, T y) noexcept -> T
+{
+    if (x != x) {
+        return x;
+    }
+    if (y != y) {
+        return y;
+    }
+    return x > y ? x - y : T(0);
+}
+
+} // namespace detail
+
 /// \ingroup cmath
 /// @{
 
 /// Returns the positive difference between x and y, that is, if x>y,
 /// returns x-y, otherwise (if x≤y), returns +0.
 /// \details https://en.cppreference.com/w/cpp/numeric/math/fdim
-[[nodiscard]] constexpr auto fdim(float x, float y) noexcept -> float { return etl::fmax(x - y, 0); }
-[[nodiscard]] constexpr auto fdimf(float x, float y) noexcept -> float { return etl::fmax(x - y, 0); }
-[[nodiscard]] constexpr auto fdim(double x, double y) noexcept -> double { return etl::fmax(x - y, 0); }
-[[nodiscard]] constexpr auto fdim(long double x, long double y) noexcept -> long double { return etl::fmax(x - y, 0); }
-[[nodiscard]] constexpr auto fdiml(long double x, long double y) noexcept -> long double { return etl::fmax(x - y, 0); }
+[[nodiscard]] constexpr auto fdim(float x, float y) noexcept -> float { return etl::detail::fdim(x, y); }
+[[nodiscard]] constexpr auto fdimf(float x, float y) noexcept -> float { return etl::detail::fdim(x, y); }
+[[nodiscard]] constexpr auto fdim(double x, double y) noexcept -> double { return etl::detail::fdim(x, y); }
+[[nodiscard]] constexpr auto fdim(long double x, long double y) noexcept -> long double { return etl::detail::fdim(x, y); }
+[[nodiscard]] constexpr auto fdiml(long double x, long double y) noexcept -> long double { return etl::detail::fdim(x, y); }
 
 /// @}
 
